@@ -998,7 +998,20 @@ static sexp analyze_define (sexp ctx, sexp x, int depth) {
 #if SEXP_USE_UNWRAPPED_TOPLEVEL_BINDINGS
       if (sexp_synclop(name)) name = sexp_synclo_expr(name);
 #endif
-      sexp_env_cell_define(ctx, env, name, SEXP_VOID, &varenv);
+      /* At the outermost level a definition of a variable that is already */
+      /* bound to a non-syntax value is an assignment (R7RS 5.3.1): keep */
+      /* the old value until the new one is stored, the expression may */
+      /* refer to it, as in (define x (+ x 1)). */
+      tmp = env;
+      while (sexp_env_lambda(tmp) || sexp_env_syntactic_p(tmp))
+        tmp = sexp_env_parent(tmp);
+      for (tmp=sexp_env_bindings(tmp); sexp_pairp(tmp); tmp=sexp_env_next_cell(tmp))
+        if (sexp_car(tmp) == name) break;
+      if (sexp_pairp(tmp) && sexp_cdr(tmp) != SEXP_UNDEF
+          && !sexp_macrop(sexp_cdr(tmp)) && !sexp_corep(sexp_cdr(tmp)))
+        sexp_env_cell_define(ctx, env, name, sexp_cdr(tmp), &varenv);
+      else
+        sexp_env_cell_define(ctx, env, name, SEXP_VOID, &varenv);
       if (sexp_pairp(sexp_cadr(x))) {
         tmp = sexp_cons(ctx, sexp_cdadr(x), sexp_cddr(x));
         tmp = sexp_cons(ctx, SEXP_VOID, tmp);
